@@ -307,6 +307,70 @@ theorem mem_uncOn (lk : Lookup) (t q : List UInt8) (n e tubeWidth : Nat) (selfAl
     | false => rfl
     | true => exact absurd ((any_buckets hits tubeWidth n a b _ (by omega)).mp hany) hc
 
+/-! ### the count of required matches (the `nt` / `no-match` tag) -/
+
+/-- the required matches the checker finds on the diagonal through `s` -/
+def reqOn (lk : Lookup) (t q : List UInt8) (n e : Nat) (selfAlign : Bool) (s : Nat × Nat) : List (Nat × Nat) :=
+  (matchesOnDiagonal (codes lk t) (codes lk q) n e s.1 s.2).filter fun m => required selfAlign m.1 m.2
+
+theorem foldl_cnt {α : Type} (f : Nat × List (List (Nat × Nat)) → α → Nat × List (List (Nat × Nat)))
+    (c : α → Nat) (hf : ∀ acc s, (f acc s).1 = acc.1 + c s) :
+    ∀ (l : List α) (acc : Nat × List (List (Nat × Nat))),
+      (l.foldl f acc).1 = acc.1 + (l.map c).sum := by
+  intro l
+  induction l with
+  | nil => intro acc; simp
+  | cons y ys ih =>
+    intro acc
+    rw [List.foldl_cons, ih, hf, List.map_cons, List.sum_cons]
+    omega
+
+theorem uncovered_fst (lk : Lookup) (t q : List UInt8) (n e tubeWidth : Nat) (selfAlign : Bool)
+    (hits : List Hit) :
+    (uncovered lk t q n e tubeWidth selfAlign hits).1 =
+      ((diagonalStarts t.length q.length).map fun s => (reqOn lk t q n e selfAlign s).length).sum := by
+  unfold uncovered
+  simp only [codes_size]
+  rw [foldl_cnt _ (fun s => (reqOn lk t q n e selfAlign s).length)]
+  · simp
+  · intro acc s
+    simp only [reqOn]
+    split
+    · rename_i hms
+      rw [List.isEmpty_iff] at hms
+      simp [hms]
+    · rfl
+
+/-- **the count behind the `nt` tag**: the number the checker reports is 0 exactly when the pair
+    has no required ε-match at all (for `n ≥ 1`), so a case tagged `no-match` demands nothing and a
+    case tagged `nt` demands something -/
+theorem nreq_zero_iff (lk : Lookup) (t q : List UInt8) (n e tubeWidth : Nat) (selfAlign : Bool)
+    (hits : List Hit) (hn : 1 ≤ n) :
+    (uncovered lk t q n e tubeWidth selfAlign hits).1 = 0 ↔
+      ∀ a b, EpsMatch lk t q n e a b → required selfAlign a b = false := by
+  rw [uncovered_fst, List.sum_eq_zero_iff_forall_eq_nat]
+  simp only [List.mem_map, forall_exists_index, and_imp, forall_apply_eq_imp_iff₂,
+    List.length_eq_zero_iff]
+  constructor
+  · intro h a b hm
+    obtain ⟨s, hs, i, hai, hbi⟩ := diagonalStarts_complete t.length q.length a b
+      (by have := hm.1; omega) (by have := hm.2.1; omega)
+    have hb := diagonalStarts_bounds _ _ s hs
+    have hmem : (a, b) ∈ matchesOnDiagonal (codes lk t) (codes lk q) n e s.1 s.2 :=
+      (mem_matchesOnDiagonal lk t q n e s.1 s.2 hb.1 hb.2 a b).mpr ⟨i, hai, hbi, hm⟩
+    have := h s hs
+    unfold reqOn at this
+    rw [List.filter_eq_nil_iff] at this
+    have := this (a, b) hmem
+    simpa using this
+  · intro h s hs
+    have hb := diagonalStarts_bounds _ _ s hs
+    unfold reqOn
+    rw [List.filter_eq_nil_iff]
+    rintro ⟨a, b⟩ hab
+    obtain ⟨i, hai, hbi, hm⟩ := (mem_matchesOnDiagonal lk t q n e s.1 s.2 hb.1 hb.2 a b).mp hab
+    simp [h a b hm]
+
 /-! ### property theorems -/
 
 /-- **soundness and completeness of the C14 checker**: for window length `n ≥ 1` (implied by a
